@@ -537,6 +537,10 @@ def run(ctx):
     return run_cases(ctx, cases, exes, drv, flavours)
 
 
+def strip_px(l):
+    return " ".join(t for t in l.split(" ") if not t.startswith("px="))
+
+
 def case_line(im, cfgs):
     return "img %s | %s | %s | %s" % (im.head(), im.samp_s(), " ".join(im.entries), " ; ".join(c for _, c in cfgs))
 
@@ -567,6 +571,7 @@ def run_cases(ctx, cases, exes, drv, flavours):
                           signature="crash:" + cases[idx][1])
             lines += ["<no output>"] * (len(cases) - len(lines))
         outs[fl] = lines
+        ctx.log("harness %s: %d cases" % (fl, len(cases)))
     ref = outs[flavours[0]]
 
     # ---- model lines ----
@@ -586,6 +591,7 @@ def run_cases(ctx, cases, exes, drv, flavours):
         rc, out, err = sh2("ulimit -s 4000000 2>/dev/null || ulimit -s unlimited 2>/dev/null; exec %s" % drv,
                            input=("\n".join(m[2] for m in mlines_in) + "\n").encode(), timeout=3000)
         mo = out.decode().split("\n")
+        ctx.log("model driver: %d lines" % len(mlines_in))
         if rc != 0 or len(mo) < len(mlines_in):
             ctx.broken_tie("model-driver", "extracted model failed: rc=%d after %d of %d lines: %s" % (rc, len(mo) - 1, len(mlines_in), err[-200:]))
         else:
@@ -596,7 +602,9 @@ def run_cases(ctx, cases, exes, drv, flavours):
     for i, (line, kind, im, cfgs) in enumerate(cases):
         impl = ref[i]
         for fl in flavours[1:]:
-            if outs[fl][i] != impl:
+            # pixel hashes are compared within a build only: SIMD and scalar IDCT may legitimately differ on
+            # coefficients that no forward DCT produces (that is C05's subject), the coded BYTES may not
+            if strip_px(outs[fl][i]) != strip_px(impl):
                 ctx.violation("builds disagree (%s vs %s): different bytes / result for the same coefficients and settings" % (flavours[0], fl),
                               {"case": line, flavours[0]: impl[:2000], fl: outs[fl][i][:2000]}, signature="build-disagree:" + kind)
         if im is None:
@@ -660,6 +668,11 @@ def run_cases(ctx, cases, exes, drv, flavours):
                         ctx.log("model/impl disagree:", bad, "\n  cfg:", cfg[:300])
                     if rb == "rb=1":
                         ctx.broken_tie("correspondence:" + fam, bad + " || cfg=" + cfg + " || case=" + rep["case"][:1500])
+        for fl in flavours[1:]:
+            opx = set(t for t in outs[fl][i].split(" ") if t.startswith("px="))
+            if len(opx) > 1:
+                ctx.violation("variants of the same coefficients decode to different pixels (%s build): %s" % (fl, sorted(opx)),
+                              {"case": line, "flavour": fl}, signature="pixel-mismatch:" + kind)
         if len(pxs) > 1:
             ctx.violation("variants of the same coefficients decode to different pixels: %s" % {k: [x[:80] for x in v[:2]] for k, v in pxs.items()},
                           {"case": line, "pixels": {k: v for k, v in pxs.items()}}, signature="pixel-mismatch:" + kind)
